@@ -165,39 +165,39 @@ type MQueue struct {
 }
 
 type MAuction struct {
-	ID          uint64
-	Type        int
-	Auctioneer  string
-	StartPrice  *big.Int
-	MinBidPrice *big.Int
-	SellDenom   string
-	SellAmt     *big.Int
-	PayDenom    string
-	Vesting     []VSchedM
-	MaxExtRound uint32
-	ExtRate     *big.Int
-	StartNs     int64
-	EndTimes    []int64
-	Status      int
-	Remaining   *big.Int // fixed price
+	ID           uint64
+	Type         int
+	Auctioneer   string
+	StartPrice   *big.Int
+	MinBidPrice  *big.Int
+	SellDenom    string
+	SellAmt      *big.Int
+	PayDenom     string
+	Vesting      []VSchedM
+	MaxExtRound  uint32
+	ExtRate      *big.Int
+	StartNs      int64
+	EndTimes     []int64
+	Status       int
+	Remaining    *big.Int // fixed price
 	MatchedPrice *big.Int // batch: published clearing price after settlement (0 if nothing sold)
-	LastMatched int64
-	Bids        []*MBid
-	Allowed     map[string]*big.Int
-	Queue       []MQueue
+	LastMatched  int64
+	Bids         []*MBid
+	Allowed      map[string]*big.Int
+	Queue        []MQueue
 
 	SellEscrow, PayEscrow, VestEscrow string
 
 	// bookkeeping for oracles
-	SettledAtBlock  int
-	Alloc           map[string]*big.Int // final allocation per bidder
-	Paid            map[string]*big.Int // final payment per bidder
-	Refund          map[string]*big.Int
-	MatchedLenHist  []int64
-	Proceeds        *big.Int
-	DustTop         bool // at settlement the highest price level had zero demand at its own price while a lower level qualified
-	everFlagged     map[uint64]bool
-	AmbiguousCap    bool // a capped bidder has several bids at qualifying prices: matched count / flags depend on processing order
+	SettledAtBlock int
+	Alloc          map[string]*big.Int // final allocation per bidder
+	Paid           map[string]*big.Int // final payment per bidder
+	Refund         map[string]*big.Int
+	MatchedLenHist []int64
+	Proceeds       *big.Int
+	DustTop        bool // at settlement the highest price level had zero demand at its own price while a lower level qualified
+	everFlagged    map[uint64]bool
+	AmbiguousCap   bool // a capped bidder has several bids at qualifying prices: matched count / flags depend on processing order
 }
 
 type VSchedM struct {
@@ -217,7 +217,7 @@ type Model struct {
 	Auctions []*MAuction
 	Bal      map[string]map[string]*big.Int
 	Seq      map[string]uint64
-	Actors   []string // bech32 addresses by actor index
+	Actors   []string            // bech32 addresses by actor index
 	PoolIn   map[string]*big.Int // total funded to community pool per denom via fundraising fees
 	EscrowFn func(kind string, id uint64) string
 	BlockIdx int
